@@ -315,7 +315,13 @@ def chunk_at(data, cuts):
     return out
 
 
-STRAY = [b"]", b"}", b"x", b",", b":", b"]]", b"nul", b"\"", b"-", b"1.", b"[", b"{\"a\"", b"\x00", b"tru e"]
+STRAY = [b"]", b"}", b"x", b",", b":", b"]]", b"nul", b"\"", b"-", b"1.", b"[", b"{\"a\"", b"\x00", b"tru e", b"\xef\xbb\xbf", b"\x0b", b"\x1e"]
+# bytes that are not JSON but that a lenient reader might skip: byte order marks (whole, partial, doubled, UTF-16), no-break and
+# line-separator spaces, vertical tab / form feed, the json-seq record separator, comments, the XSSI guard.  In front of a stream
+# (and of the second file's) they are stray text whatever the read boundaries are: whole in the first read, split inside, one byte each
+LEADS = [b"\xef\xbb\xbf", b"\xef\xbb", b"\xef", b"\xef\xbb\xbf\xef\xbb\xbf", b"\xff\xfe", b"\xfe\xff", b"\xff\xfe[\x00", b"\xc2\xa0",
+         b"\xe2\x80\xa8", b"\xe2\x80\x8b", b"\x0b", b"\x0c", b"\x1e", b"\x00", b"\x7f", b"\x1a", b"//c\n", b"/**/", b"#c\n", b")]}'\n", b";", b"\\n",
+         b" \xef\xbb\xbf", b"\n\xef\xbb\xbf"]
 CORRUPT = b"]}[{x,:\" 0-\\t\n9e."
 
 
@@ -325,9 +331,11 @@ class C03(Check):
     io = True
     rule = ("generated value streams (1-6 top-level arrays/objects/scalars/strings, every whitespace separation incl. none) under many "
             "partitions into reads (one read, one byte per read, cuts at value boundaries, random cuts); every prefix of the stream "
-            "with a clean end of input and with a failing reader; stray text inserted at every value boundary; single-byte corruptions; "
+            "with a clean end of input and with a failing reader; stray text inserted at every value boundary; byte order marks and other "
+            "skippable-looking non-JSON bytes in front of a stream under every split of them across the first reads; single-byte corruptions; "
             "two-file runs; three tracing programs. Expected stdout/outcome from an independent stream scanner; incrementality from the "
-            "read/write log. non-trivial = at least two values or a fault")
+            "read/write log; the real binary fed through a pipe with pauses, writes aligned to values and writes that carry the end of one value "
+            "together with the beginning of the next. non-trivial = at least two values or a fault")
 
     def project(self, r):
         if r.outcome == "crash":
@@ -400,6 +408,16 @@ class C03(Check):
                     for pad in ((b" ",) if not exhaustive else (b" ", b"")):
                         mod = data[:bpos] + pad + stray + pad + data[bpos:]
                         add("stray", pk, [(name, chunk_at(mod, rng.choice([[], list(range(1, len(mod))), rand_cuts(mod)])), False)])
+            # --- non-JSON bytes in front of the stream, under every way of splitting them across the first reads
+            leads = [LEADS[0]] + rng.sample(LEADS[1:], 5 if quick else len(LEADS) - 1)
+            for lk, lead in enumerate(leads):
+                mod = lead + data
+                m = len(mod)
+                lparts = [[], list(range(1, m)), [len(lead)], [len(lead) + 1], [1], [2], [1, len(lead)], [len(lead), m - 1], rand_cuts(mod)]
+                for cuts in lparts:
+                    add("lead", pk, [(name, chunk_at(mod, cuts), False)], key=key + "L%d" % lk)
+                add("lead", pk, [(name, chunk_at(mod, rng.choice(lparts)), True)])
+                add("lead", pk, [("a.json", chunk_at(data, rand_cuts(data)), False), ("b.json", chunk_at(mod, rng.choice(lparts)), False)])
             # --- single byte corruptions
             if all(c < 128 for c in data):
                 idx = range(n) if exhaustive and n <= 24 else rng.sample(range(n), min(n, 12))
@@ -460,16 +478,28 @@ class C03(Check):
         stats["chunking_groups"] = ngroups
         # the real binary through a pipe, with pauses between the writes
         rng, tier = ctx["rng"], ctx["tier"]
-        nlive = 4 if tier == "quick" else 25
+        nlive = 10 if tier == "quick" else 60
         for k in range(nlive):
             pk = rng.choice(["print", "trace"])
             texts = []
-            for _ in range(rng.randint(2, 4)):
-                t = rng.choice(["[1, 2, 3]", "{\"a\": 1}", "7", "\"s\"", "[[1], 2]", "null", "[]", "true"])
+            for _ in range(rng.randint(2, 5)):
+                t = rng.choice(["[1, 2, 3]", "{\"a\": 1}", "7", "\"s\"", "[[1], 2]", "null", "[]", "true", "[\"ab\", {\"k\": [1]}]", "12.5"])
                 texts.append(t + rng.choice(["\n", " ", "\n\n"]))
-            why, detail = live_pipe(pk, texts)
+            data = "".join(texts).encode()
+            starts = [sum(len(t) for t in texts[:i]) for i in range(len(texts))]
+            if k % 2 == 0:
+                cuts = starts[1:]                   # one write per value (with its separator)
+            else:
+                # a write ends inside a value: it carries the rest of one value, the separator and the beginning of the next
+                cuts = [st + rng.randint(1, len(t.rstrip()) - 1) for st, t in zip(starts, texts) if len(t.rstrip()) >= 2 and st > 0]
+                if rng.random() < 0.5:
+                    cuts += [rng.randrange(1, len(data)) for _ in range(rng.randint(1, 3))]
+            cuts = sorted(set(c for c in cuts if 0 < c < len(data)))
+            writes = [data[a:b] for a, b in zip([0] + cuts, cuts + [len(data)])]
+            why, detail = live_pipe(pk, writes)
             if why:
-                viol.append((Case("live%d" % k, None, {"prog": PROGS[pk], "writes": texts, "detail": detail}, True, ("live",)), why))
+                viol.append((Case("live%d" % k, None, {"prog": PROGS[pk], "writes": [w.decode() for w in writes], "detail": detail}, True, ("live",)), why))
+                break       # (every failing run waits out its deadline)
         stats["live_pipe_runs"] = nlive
         # faults through the binary: exit status 1, diagnostic naming the file, earlier values' output kept
         probes = [(b"[1] ] [2]", "1\n"), (b"[1]\n[2", "1\n"), (b"[1] x", "1\n"), (b"1 2 }", "1\n2\n"), (b"[1,2]\n{\"a\":", "1\n2\n"), (b"nul", "")]
@@ -517,17 +547,20 @@ def incremental(marks, iolog):
     return None
 
 
-def live_pipe(pk, texts, wait=30.0):
-    """Feed the binary through a pipe, pausing after each value until its output has arrived."""
+def live_pipe(pk, writes, wait=30.0):
+    """Feed the binary through a pipe, one write at a time, pausing after each until the output of every value that is
+    complete in the bytes written so far (a scalar needs one following byte) has arrived."""
     p = subprocess.Popen([JQAWK, PROGS[pk]], stdin=subprocess.PIPE, stdout=subprocess.PIPE, stderr=subprocess.PIPE)
-    state = {"n": 0}
     got = b""
-    want = out_begin(pk).encode()
+    delivered = b""
     try:
-        for t in texts:
-            p.stdin.write(t.encode())
+        for w in writes:
+            p.stdin.write(w)
             p.stdin.flush()
-            want += out_value(pk, to_value(t.encode()), "<stdin>", state).encode()
+            delivered += w
+            vals, _ = split(delivered, True)
+            state = {"n": 0}
+            want = (out_begin(pk) + "".join(out_value(pk, to_value(delivered[s:e]), "<stdin>", state) for s, e, _ in vals)).encode()
             deadline = time.time() + wait
             while len(got) < len(want) and time.time() < deadline:
                 r, _, _ = select.select([p.stdout], [], [], max(0.0, deadline - time.time()))
@@ -537,17 +570,17 @@ def live_pipe(pk, texts, wait=30.0):
                 if not chunk:
                     break
                 got += chunk
-            if got != want:
-                return ("output of a complete value not written while the input pipe stays open: after %r expected %r so far, got %r"
-                        % (t, want, got)), {"stderr": ""}
+            if got[:len(want)] != want:
+                return ("output of a complete value not written while the input pipe stays open: after %r had been written (%d complete values) "
+                        "expected %r so far, got %r" % (delivered.decode(), len(vals), want, got)), {"stderr": ""}
             time.sleep(0.02)
         p.stdin.close()
         rest = p.stdout.read()
         err = p.stderr.read()
         rc = p.wait(timeout=10)
-        want += out_end(pk, state).encode()
-        if rc != 0 or got + rest != want:
-            return "after closing the pipe: exit status %d, stdout %r, documented %r" % (rc, got + rest, want), {"stderr": err.decode("utf-8", "replace")}
+        outcome, out, _ = expect(pk, [("<stdin>", delivered, False)])
+        if rc != (0 if outcome == "ok" else 1) or got + rest != out.encode():
+            return "after closing the pipe: exit status %d, stdout %r, documented %r" % (rc, got + rest, out), {"stderr": err.decode("utf-8", "replace")}
         return None, None
     finally:
         try:
